@@ -12,7 +12,6 @@ use crate::{
 use core::convert::TryInto;
 use std::{
   borrow::Cow,
-  convert::TryFrom,
   fmt::{self, Write},
 };
 
@@ -3853,7 +3852,7 @@ where
       }
       Value::Text(s) => {
         if is_ident_uri_data_type(self.state.cddl, ident) {
-          if let Err(e) = uriparse::URI::try_from(&**s) {
+          if let Err(e) = validate_uri(s) {
             self.add_error(format!("expected URI data type, decoding error: {}", e));
           }
         } else if is_ident_b64url_data_type(self.state.cddl, ident) {
